@@ -172,6 +172,32 @@ def rule_replay(ctx: Ctx) -> None:
     else:
         ctx.fail("reverse.table", m, fn, "clifford_from_stabilizer must run the gate list returned by inverse_circuit with reverse=True on "
                                          "create_n_ket0_state(n)", func="clifford_from_stabilizer", construct="clifford_from_stabilizer: replay shape")
+    # the replayed tableau is returned as it is: overwriting one of its halves afterwards (the caller's generators, say) leaves
+    # destabilizers that belong to a different generating set, i.e. a table that is no longer symplectic
+    if len(rc) == 1:
+        held = set()
+        st_ = rc[0]
+        while st_ is not None and not isinstance(st_, ast.stmt):
+            st_ = parent(st_)
+        if isinstance(st_, ast.Assign):
+            held = {t.id for t in st_.targets if isinstance(t, ast.Name)}
+        edits = []
+        for a in ast.walk(fn):
+            tg = a.targets if isinstance(a, ast.Assign) else ([a.target] if isinstance(a, ast.AugAssign) else [])
+            for t in tg:
+                b = t
+                while isinstance(b, ast.Subscript):
+                    b = b.value
+                if isinstance(b, ast.Attribute) and isinstance(b.value, ast.Name) and b.value.id in held and a.lineno > st_.lineno:
+                    edits.append(a)
+        if edits:
+            ctx.fail("reverse.table", m, edits[0],
+                     f"clifford_from_stabilizer edits the replayed tableau after the replay (`{short(edits[0], 70)}`): the destabilizers were "
+                     f"synthesised for the generators the replay produced; with another generating set written over the stabilizer half, "
+                     f"destabilizer i no longer anticommutes with exactly stabilizer i — the result is not a valid Clifford tableau",
+                     func="clifford_from_stabilizer", construct="clifford_from_stabilizer: replayed tableau edited before it is returned")
+        else:
+            ctx.ok("reverse.table", m, rc[0], what="replayed tableau returned untouched")
     g = repo.anchor(RC, "get_clifford_tableau_from_graph")
     if any(call_attr(c) == "clifford_from_stabilizer" for c in calls_in(g)) and any(call_attr(c) == "get_stabilizer_tableau_from_graph" for c in calls_in(g)):
         ctx.ok("reverse.table", m, g, what="graph -> stabilizer tableau -> Clifford tableau")
@@ -251,6 +277,7 @@ def _swap_blocks(src: str) -> str:
 
 
 KNOCKOUTS = [
+    Knockout("replay-overwritten", RC, sub_once("    return transform.run_circuit(clifford_tableau, circuit, reverse=True)", "    clifford_tableau = transform.run_circuit(clifford_tableau, circuit, reverse=True)\n    clifford_tableau.stabilizer = stabilizer_tableau.table\n    return clifford_tableau"), "reverse.table", "edited before it is returned"),
     Knockout("cz-before-cnot", STABF, _swap_blocks, "inverse.blocks", "order of elimination passes"),
     Knockout("clifford-cache-without-signs", RC, sub_once("def clifford_from_stabilizer(stabilizer_tableau):", "_CT_CACHE = {}\n\n\ndef clifford_from_stabilizer_cached(stabilizer_tableau):\n    key = (stabilizer_tableau.n_qubits, stabilizer_tableau.table.tobytes())\n    if key not in _CT_CACHE:\n        _CT_CACHE[key] = clifford_from_stabilizer(stabilizer_tableau)\n    return _CT_CACHE[key].copy()\n\n\ndef clifford_from_stabilizer(stabilizer_tableau):"), "memo.sound", "key does not determine"),
     Knockout("pivot-first-z", STABF, sub_once("tab_row_swap(tableau, pivot[0], z_list[-1])", "tab_row_swap(tableau, pivot[0], z_list[0])"), "pivot.choice", "Z-only pivot"),
